@@ -315,7 +315,27 @@ def op_link_existing(g, dv, protected):
            if a.ref != b.ref and a.target == b.table.tableId and b.target == a.table.tableId]
   if not pairs:
     return None
-  a, b = g.rng.choice(pairs)
+  # Mostly link columns whose data already mirror each other (e.g. a pair whose link was just
+  # removed); linking columns with contradicting data has no symmetric outcome (finding F-w).
+  cells = ref_cells(dv.snap, dv)
+  def mirrored(a, b):
+    ka, kb = (a.table.tableId, a.colId), (b.table.tableId, b.colId)
+    if ka not in cells or kb not in cells:
+      return False
+    def tg(kind, v):
+      if kind == "Ref":
+        return {v} if isinstance(v, int) and v else set()
+      return set(v) if isinstance(v, list) else set()
+    fwd = {(r, x) for r, v in cells[ka][2].items() for x in tg(cells[ka][0], v)}
+    back = {(x, r) for r, v in cells[kb][2].items() for x in tg(cells[kb][0], v)}
+    return fwd == back
+  good = [(a, b) for a, b in pairs if mirrored(a, b)]
+  if good and g.rng.random() < 0.85:
+    a, b = g.rng.choice(good)
+  elif g.cfg.get("allow_contradicting_link"):
+    a, b = g.rng.choice(pairs)
+  else:
+    return None
   return [["ModifyColumn", a.table.tableId, a.colId, {"reverseCol": b.ref}]]
 
 
@@ -390,6 +410,11 @@ class C11(HistoryProfile):
   def next_event(self, sim, g, cfg, st, i):
     for _ in range(5):
       ev = super(C11, self).next_event(sim, g, cfg, st, i)
+      if ev["k"] == "bundle" and len(ev.get("ops", ())) > 1 and (
+          "remove_records" in ev["ops"] or "link_existing" in ev["ops"]):
+        # a later group generated against the same Sigma could refer to a row that an earlier
+        # group removes: a (legal) dangling id, for which symmetry is not defined
+        continue
       if ev["k"] != "bundle" or not self._writes_both_sides(sim, ev):
         return ev
     return {"k": "bundle", "a": [["Calculate"]], "ops": ["noop"]}
